@@ -88,24 +88,44 @@ func startProxy(target string) (*proxy, error) {
 	return p, nil
 }
 
-// pump forwards whole frames and keeps draining the source when the
-// destination no longer takes data, so that a sender always gets to write
-// its complete message.
+// pump reads whole frames from src, records them and hands them to a forwarder
+// goroutine through a queue, so that a sender is never held up by a receiver
+// that stopped reading (it always gets to write its complete message); the
+// forwarder drops what the destination no longer takes.
 func (p *proxy) pump(src, dst net.Conn, dir int) {
 	defer p.wg.Done()
+	q := make(chan []byte, 8192)
+	p.wg.Add(1)
+	go func() {
+		defer p.wg.Done()
+		dead := false
+		for b := range q {
+			if dead {
+				continue
+			}
+			dst.SetWriteDeadline(time.Now().Add(stepTimeout))
+			if _, err := dst.Write(b); err != nil {
+				dead = true
+			}
+		}
+		if t, ok := dst.(*net.TCPConn); ok {
+			t.CloseWrite()
+		}
+	}()
+	defer close(q)
 	hdr := make([]byte, 8)
-	dead := false
 	for {
 		if _, err := io.ReadFull(src, hdr); err != nil {
-			break
+			return
 		}
 		size := binary.LittleEndian.Uint32(hdr[4:])
 		if size < 8 || size > 1<<26 {
-			break
+			return
 		}
-		body := make([]byte, size-8)
-		if _, err := io.ReadFull(src, body); err != nil {
-			break
+		frame := make([]byte, size)
+		copy(frame, hdr)
+		if _, err := io.ReadFull(src, frame[8:]); err != nil {
+			return
 		}
 		p.mu.Lock()
 		p.recs[dir] = append(p.recs[dir], frameRec{string(hdr[:3]), hdr[3], size})
@@ -114,15 +134,10 @@ func (p *proxy) pump(src, dst net.Conn, dir int) {
 		case p.sig <- struct{}{}:
 		default:
 		}
-		if !dead {
-			dst.SetWriteDeadline(time.Now().Add(stepTimeout))
-			if _, err := dst.Write(append(hdr[:8:8], body...)); err != nil {
-				dead = true
-			}
+		select {
+		case q <- frame:
+		default: // queue full: the receiver gave up long ago
 		}
-	}
-	if t, ok := dst.(*net.TCPConn); ok {
-		t.CloseWrite()
 	}
 }
 
